@@ -374,6 +374,71 @@ Proof.
     reflexivity.
 Qed.
 
+Lemma purge_noop l D e : map od_sseq (ops_of l D) = nseq 1 (N.to_nat e) -> purge_after l D e = l.
+Proof.
+  intros H. unfold purge_after.
+  assert (A : forall o, In o l -> negb (str_eqb (od_duid o) D && (e <? od_sseq o)) = true).
+  { intros o Ho. destruct (str_eqb (od_duid o) D) eqn:Ed; [|reflexivity]. cbn.
+    assert (Hin : In (od_sseq o) (map od_sseq (ops_of l D))).
+    { apply in_map. unfold ops_of. apply filter_In. auto. }
+    rewrite H in Hin. apply nseq_in in Hin. destruct (N.ltb_spec e (od_sseq o)); [lia|reflexivity]. }
+  clear H. induction l as [|o l IH]; cbn; [reflexivity|]. rewrite (A o (or_introl eq_refl)). f_equal.
+  apply IH. intros x Hx. apply A. right. exact Hx.
+Qed.
+
+Lemma pulled_within db D e from :
+  map od_sseq (ops_of (s_ops db) D) = nseq 1 (N.to_nat e) ->
+  filter (fun o => od_sseq o <=? e) (get_ops db D from) = get_ops db D from.
+Proof.
+  intros H. destruct (get_ops_sseqs db D e from H) as [M _].
+  assert (A : forall o, In o (get_ops db D from) -> (od_sseq o <=? e) = true).
+  { intros o Ho. assert (Hin : In (od_sseq o) (map od_sseq (get_ops db D from))) by (apply in_map; exact Ho).
+    rewrite M in Hin. apply filter_In in Hin. destruct Hin as [Hin _]. apply nseq_in in Hin. apply N.leb_le. lia. }
+  clear M. revert A. generalize (get_ops db D from). intros l A.
+  induction l as [|o l IH]; cbn; [reflexivity|]. rewrite (A o (or_introl eq_refl)). f_equal.
+  apply IH. intros x Hx. apply A. right. exact Hx.
+Qed.
+
+(* the fault-free handler, with the fault dispatch folded away *)
+Definition finish_plain (db : sdb) (colname : str) (col : N) (cuid : str) (req : ppp) (ro : bool)
+           (d0 : ddoc) (duid : str) (ops : list op) (opt : N) (err_duid : str) : sdb * ppp * list publish :=
+  let cp0 := match alookup str_eqb cuid (clients_of d0 ro) with Some c => c | None => mkCp 0 0 end in
+  let err_after code := mkPpp (p_key req) err_duid (N.lor opt bit_error) (p_cp req) (p_type req) [] (Some code) in
+  let pushed := if ro then Some (mkCp (dd_end d0) (cseq cp0), []) else push_ops duid col (mkCp (dd_end d0) (cseq cp0)) ops [] in
+  match pushed with
+  | None => (db, err_after err_missing_ops, [])
+  | Some (cp1, newdocs) =>
+      let pulled := if has (p_opt req) bit_snapshot then []
+                    else filter (fun o => od_sseq o <=? dd_end d0) (get_ops db duid (sseq (p_cp req) + 1)) in
+      let cp2 := match rev pulled with
+                 | [] => cp1
+                 | last :: _ => mkCp (od_sseq last + N.of_nat (length newdocs)) (cseq cp1)
+                 end in
+      let purged := match newdocs with [] => s_ops db | _ => purge_after (s_ops db) duid (dd_end d0) end in
+      let '(stored, ok) := insert_ops purged newdocs in
+      if ok then
+        let d1 := set_end (set_client d0 ro cuid cp2) (sseq cp2) in
+        let db' := mkSdb (s_cols db) (s_colctr db) (s_clients db) (upsert_dt (s_dts db) d1) stored in
+        let resp := mkPpp (p_key req) duid opt cp2 (p_type req) (map od_op pulled) None in
+        let pubs := match newdocs with
+                    | [] => []
+                    | _ => [mkPub colname (dd_key d1) cuid (dd_duid d1) (sseq cp2)]
+                    end in
+        (db', resp, pubs)
+      else
+        (mkSdb (s_cols db) (s_colctr db) (s_clients db) (s_dts db) stored,
+         mkPpp (p_key req) err_duid (N.lor opt bit_error) cp2 (p_type req) (map od_op pulled) (Some err_abort_server), [])
+  end.
+
+Lemma finish_pack_plain db colname col cuid req ro d0 duid ops opt eduid :
+  finish_pack db colname col cuid req ro d0 duid ops opt eduid =
+  finish_plain db colname col cuid req ro d0 duid ops opt eduid.
+Proof.
+  unfold finish_pack, finish_pack_f, finish_plain.
+  destruct (if ro then _ else _) as [[cp1 newdocs]|]; [|reflexivity].
+  destruct (has (p_opt req) bit_snapshot); destruct newdocs; reflexivity.
+Qed.
+
 Lemma finish_spec db colname col cuid req ro d0 duid ops opt eduid :
   LogInv db -> duid = dd_duid d0 -> dd_col d0 = col ->
   (In d0 (s_dts db) \/
@@ -397,7 +462,7 @@ Proof.
   { intros b c x Hl. destruct Hd0 as [Hin|[_ [_ [_ [Hrw Hro]]]]].
     - destruct b; cbn in Hl; [eapply (di_ro _ _ (Hdt d0 Hin))|eapply (di_rw _ _ (Hdt d0 Hin))]; eauto.
     - destruct b; cbn in Hl; rewrite ?Hrw, ?Hro in Hl; discriminate. }
-  unfold finish_pack.
+  rewrite finish_pack_plain. unfold finish_plain.
   set (cp0 := match alookup str_eqb cuid (clients_of d0 ro) with Some c => c | None => mkCp 0 0 end).
   (* pushOperations *)
   assert (Hpush : forall cp1 newdocs,
@@ -412,6 +477,8 @@ Proof.
   2:{ cbn. destruct Hbase as [Hb1 Hb2]. split; [exact Hb1|split; [exact Hb2|split; reflexivity]]. }
   destruct (Hpush cp1 newdocs eq_refl) as [Hn1 [Hn2 Hn3]].
   (* pullOperations *)
+  rewrite (pulled_within db D e (sseq (p_cp req) + 1) Hs), (purge_noop (s_ops db) D e Hs).
+  replace (match newdocs with [] => s_ops db | _ :: _ => s_ops db end) with (s_ops db) by (destruct newdocs; reflexivity).
   set (pulled := if has (p_opt req) bit_snapshot then [] else get_ops db D (sseq (p_cp req) + 1)).
   set (cp2 := match rev pulled with [] => cp1 | lst :: _ => mkCp (od_sseq lst + N.of_nat (length newdocs)) (cseq cp1) end).
   assert (Hcp2 : sseq cp2 = e + N.of_nat (length newdocs)).
@@ -485,7 +552,7 @@ Qed.
 Theorem handle_pack_spec db colname col cuid req :
   LogInv db -> pack_post db colname col cuid (handle_pack db colname col cuid req).
 Proof.
-  intros Hinv. unfold handle_pack.
+  intros Hinv. unfold handle_pack, handle_pack_f; fold finish_pack.
   destruct (has (p_opt req) bit_readonly && _) eqn:Ev.
   - apply refused_post; [exact Hinv|discriminate].
   - destruct (evaluate db col cuid (has (p_opt req) bit_readonly) req) as [c d] eqn:He.
@@ -533,7 +600,7 @@ Proof.
   - unfold process_client. destruct (alookup str_eqb col (s_cols db)); [|exact H].
     destruct (alookup str_eqb cuid (s_clients db)) as [ccol|]; [destruct (N.eqb ccol n); exact H|].
     eapply loginv_tables; [| |exact H]; reflexivity.
-  - unfold process_pushpull. destruct (alookup str_eqb col (s_cols db)) as [n|]; [|exact H].
+  - unfold process_pushpull, process_pushpull_f; fold handle_pack. destruct (alookup str_eqb col (s_cols db)) as [n|]; [|exact H].
     destruct (alookup str_eqb cuid (s_clients db)) as [ccol|]; [|exact H].
     destruct (N.eqb ccol n); [|exact H].
     pose proof (fold_packs_inv col n cuid packs db [] H) as F.
@@ -559,7 +626,7 @@ Lemma refused_by_decide db colname col cuid req c d code :
   evaluate db col cuid (has (p_opt req) bit_readonly) req = (c, d) ->
   decide col req c d = ARefuse code ->
   handle_pack db colname col cuid req = (db, error_resp req code, []).
-Proof. intros Hv He Hd. unfold handle_pack. rewrite Hv, He, Hd. reflexivity. Qed.
+Proof. intros Hv He Hd. unfold handle_pack, handle_pack_f; fold finish_pack. rewrite Hv, He, Hd. reflexivity. Qed.
 
 (* subscribing to a key that does not exist is refused with PushPullNoDatatypeToSubscribe, nothing stored *)
 Theorem subscribe_missing_refused db colname col cuid req :
@@ -567,7 +634,7 @@ Theorem subscribe_missing_refused db colname col cuid req :
   find_dt_by_key db col (p_key req) = None ->
   exists code, handle_pack db colname col cuid req = (db, error_resp req code, []).
 Proof.
-  intros Hs Hc Hk. unfold handle_pack.
+  intros Hs Hc Hk. unfold handle_pack, handle_pack_f; fold finish_pack.
   destruct (has (p_opt req) bit_readonly && _); [eexists; reflexivity|].
   unfold evaluate. rewrite Hs, Hc, Hk. cbn [orb].
   destruct (find_dt db (p_duid req)); unfold decide; rewrite Hs, Hc; cbn; eexists; reflexivity.
@@ -581,7 +648,7 @@ Theorem create_existing_refused db colname col cuid req d0 :
   dd_duid d0 <> p_duid req \/ dd_type d0 <> p_type req ->
   exists code, handle_pack db colname col cuid req = (db, error_resp req code, []).
 Proof.
-  intros Hc Hs Hk Hdiff. unfold handle_pack.
+  intros Hc Hs Hk Hdiff. unfold handle_pack, handle_pack_f; fold finish_pack.
   destruct (has (p_opt req) bit_readonly && _); [eexists; reflexivity|].
   unfold evaluate. rewrite Hs, Hc, Hk. cbn [orb].
   destruct (N.eqb_spec (dd_type d0) (p_type req)) as [Et|Et].
@@ -598,7 +665,7 @@ Theorem type_mismatch_refused db colname col cuid req d0 :
   find_dt_by_key db col (p_key req) = Some d0 -> dd_type d0 <> p_type req ->
   exists code, handle_pack db colname col cuid req = (db, error_resp req code, []).
 Proof.
-  intros Hb Hk Ht. unfold handle_pack.
+  intros Hb Hk Ht. unfold handle_pack, handle_pack_f; fold finish_pack.
   destruct (has (p_opt req) bit_readonly && _); [eexists; reflexivity|].
   unfold evaluate. rewrite Hb, Hk.
   destruct (N.eqb_spec (dd_type d0) (p_type req)) as [Et|Et]; [contradiction|].
@@ -612,7 +679,7 @@ Theorem foreign_or_unknown_refused db colname col cuid req :
   (find_dt db (p_duid req) = None \/ exists d0, find_dt db (p_duid req) = Some d0 /\ dd_col d0 <> col) ->
   exists code, handle_pack db colname col cuid req = (db, error_resp req code, []).
 Proof.
-  intros Hc Hs H. unfold handle_pack.
+  intros Hc Hs H. unfold handle_pack, handle_pack_f; fold finish_pack.
   destruct (has (p_opt req) bit_readonly && _); [eexists; reflexivity|].
   unfold evaluate. rewrite Hs, Hc. cbn [orb].
   destruct H as [H|[d0 [H Hne]]]; rewrite H; unfold decide; rewrite Hs, Hc; cbn.
@@ -634,7 +701,7 @@ Qed.
 Theorem rpc_refusal_changes_nothing db col cuid packs e :
   snd (process_pushpull db col cuid packs) = inr e -> fst (process_pushpull db col cuid packs) = db.
 Proof.
-  unfold process_pushpull.
+  unfold process_pushpull, process_pushpull_f; fold handle_pack.
   destruct (alookup str_eqb col (s_cols db)); [|reflexivity].
   destruct (alookup str_eqb cuid (s_clients db)); [|reflexivity].
   destruct (N.eqb n0 n); [|reflexivity].
@@ -666,7 +733,7 @@ Theorem foreign_client_refused db col cuid packs ccol n :
   alookup str_eqb col (s_cols db) = Some n -> alookup str_eqb cuid (s_clients db) = Some ccol -> ccol <> n ->
   process_pushpull db col cuid packs = (db, inr NoPermission).
 Proof.
-  intros H1 H2 Hne. unfold process_pushpull. rewrite H1, H2.
+  intros H1 H2 Hne. unfold process_pushpull, process_pushpull_f; fold handle_pack. rewrite H1, H2.
   destruct (N.eqb_spec ccol n); [contradiction|reflexivity].
 Qed.
 
@@ -695,7 +762,7 @@ Proof.
     + intros nm n Hin. apply in_app_or in Hin. destruct Hin as [Hin|[[= _ <-]|[]]]; [apply H2 in Hin|]; lia.
   - unfold process_client. destruct (alookup str_eqb col (s_cols db)); [|split; assumption].
     destruct (alookup str_eqb cuid (s_clients db)) as [c|]; [destruct (N.eqb c n)|]; split; assumption.
-  - unfold process_pushpull. destruct (alookup str_eqb col (s_cols db)) as [n|]; [|split; assumption].
+  - unfold process_pushpull, process_pushpull_f; fold handle_pack. destruct (alookup str_eqb col (s_cols db)) as [n|]; [|split; assumption].
     destruct (alookup str_eqb cuid (s_clients db)) as [c|]; [|split; assumption].
     destruct (N.eqb c n); [|split; assumption].
     pose proof (fold_packs_tables col n cuid packs db [] HL) as [T1 [T2 _]].
